@@ -10,7 +10,8 @@ model of their own step / reset / getters.  NOT a property of its own: its cases
              trace judged by specC01 / specC07 exactly as for the stub (harness/p_mgr.py).
 
 Classes: TeamBattleSim, PredatorPreyResourcesSim, MazeNavigationSim, MultiMazeNavigationSim,
-TrafficCorridorSimulation (ReachTheTargetSim is not modelled, see the header of Model/Examples.lean).
+TrafficCorridorSimulation here; MultiCorridor (p_corridor.py), MultiAgentGridSim (p_multigrid.py) and
+ReachTheTargetSim (p_reach.py) ride in the same streams (dispatch on desc["which"]).
 
 desc = {"stream", "which", "p": build parameters (json), "order": rotation of the observer / done component sets,
         "ops": [["reset", [component names in reset order], tape] | ["step", [[agent, [dr, dc], attack, form]...], tape] |
@@ -35,6 +36,9 @@ import mgr
 import oracle
 import wire
 import p_place
+import p_corridor
+import p_multigrid
+import p_reach
 from p_place import guarded, opts_wire
 from p_attack import fenc
 
@@ -454,7 +458,7 @@ class ExSession:
             if self.scribble:
                 for v in ad.values():              # the caller re-uses its dicts: the simulation must not keep them
                     for k in list(v):
-                        v[k] = v[k] * 0 + 7
+                        v[k] = v[k] * 0 + 7 if not isinstance(v[k], list) else [7]
                 ad.clear()
         elif kind == "obs":
             with self._scripted(op[2]):
@@ -599,7 +603,7 @@ def make_case(desc, sess, ops, entries):
                     deaths = True
                     if any(not sess.learning[i] for i in died):
                         tags.append("ex-killed-entity-without-reward-entry")      # the situation of C02-E3 (repaired)
-                    if len(died) >= 2 and any(a[2] >= 2 for a in op[1]):
+                    if len(died) >= 2 and any(isinstance(a[2], int) and a[2] >= 2 for a in op[1]):
                         tags.append("ex-several-killed-by-multi-attack")          # ... of C02-E2 (repaired)
             if desc["which"] == "multiMaze" and e[2] and any(x >= 80 for _, x in e[2][0]):
                 tags.append("ex-multimaze-target-reward-accrued")                 # ... of C01-E1 (repaired)
@@ -618,6 +622,12 @@ def make_case(desc, sess, ops, entries):
 
 
 def case_from_desc(d):
+    if d["which"] == "corridor":
+        return p_corridor.case_from_desc(d)
+    if d["which"] == "multigrid":
+        return p_multigrid.case_from_desc(d)
+    if d["which"] == "reach":
+        return p_reach.case_from_desc(d)
     sess = ExSession(d["which"], d["p"], d.get("order", 0), scribble=bool(d.get("scribble")))
     other = None
     if d.get("twin"):
@@ -657,9 +667,21 @@ def gen_cases(rng, stream, count, quick=True):
         else:
             yield make_case(d, sess, ops, entries)
         made += 1
+    # MultiCorridor (not a grid world; harness/p_corridor.py) rides in the same stream
+    yield from p_corridor.gen_cases(rng, stream, max(20, count // 4), quick)
+    yield from p_multigrid.gen_cases(rng, stream, max(12, count // 8), quick)
+    yield from p_reach.gen_cases(rng, stream, max(20, count // 4), quick)
 
 
 def interpret(reply, case):
+    if case.desc.get("which") == "corridor":
+        return p_corridor.interpret(reply, case)
+    if case.desc.get("which") == "multigrid":
+        return p_multigrid.interpret(reply, case)
+    return _interpret(reply, case)
+
+
+def _interpret(reply, case):
     model, ms, is_, pre = reply
     if is_ not in (0, 1):
         raise ValueError("driver could not parse the implementation's trace")
@@ -687,6 +709,16 @@ def interpret(reply, case):
 
 
 def shrink_candidates(d):
+    if d.get("which") == "corridor":
+        yield from p_corridor.shrink_candidates(d)
+        return
+    if d.get("which") == "multigrid":
+        yield from p_multigrid.shrink_candidates(d)
+        return
+    yield from _shrink_candidates(d)
+
+
+def _shrink_candidates(d):
     ops = d["ops"]
     n = len(ops)
     if d.get("twin"):
@@ -834,11 +866,7 @@ class MgrSession:
                        bool(done.get("__all__"))]
         else:
             res = ["e", st]
-        if stepped:
-            sa = ["y", [[s.idx[k], [int(v["move"][0]), int(v["move"][1])] if "move" in v else [0, 0],
-                         int(v.get("attack", 0))] for k, v in self.log.step_log[-1]]]
-        else:
-            sa = ["n"]
+        sa = ["y", self.sim_args(self.log.step_log[-1])] if stepped else ["n"]
         accrued = list(self.log.accrued_snapshot) if (stepped or (op[0] == "r" and st == "ok")) else pend_before
         self.ops.append(op)
         self.trace.append([res, sa, accrued, self.log.ghost()])
@@ -847,6 +875,15 @@ class MgrSession:
         elif st != "rejected":
             self.dead = True
         return st, val
+
+
+def _sim_args(self, logged):
+    s = self.sess
+    return [[s.idx[k], [int(v["move"][0]), int(v["move"][1])] if "move" in v else [0, 0], int(v.get("attack", 0))]
+            for k, v in logged]
+
+
+MgrSession.sim_args = _sim_args
 
 
 def mgr_case(d, ms):
@@ -874,6 +911,12 @@ def mgr_case(d, ms):
 
 
 def mgr_case_from_desc(d):
+    if d["which"] == "corridor":
+        return p_corridor.mgr_case_from_desc(d)
+    if d["which"] == "multigrid":
+        return p_multigrid.mgr_case_from_desc(d)
+    if d["which"] == "reach":
+        return p_reach.mgr_case_from_desc(d)
     ms = MgrSession(d)
     for op in d["ops"]:
         if ms.dead:
@@ -938,6 +981,9 @@ def gen_mgr_cases(rng, count):
             continue
         made += 1
         yield mgr_case(d, ms)
+    yield from p_corridor.gen_mgr_cases(rng, max(20, count // 4))
+    yield from p_multigrid.gen_mgr_cases(rng, max(12, count // 8))
+    yield from p_reach.gen_mgr_cases(rng, max(20, count // 4))
 
 
 def mgr_interpret(reply, case, spec_idx):
@@ -974,16 +1020,27 @@ def mgr_shrink_candidates(d):
 # C08: used versus fresh twin on real example objects (examples_reset_forgets / examples_fresh_twin)
 
 def twin_case(d):
+    if d["which"] == "corridor":
+        return p_corridor.twin_case(d)
+    if d["which"] == "multigrid":
+        return p_multigrid.twin_case(d)
+    if d["which"] == "reach":
+        return p_reach.twin_case(d)
+    return _twin_case(d)
+
+
+def _twin_case(d, session_of=None, make=None):
     """the used object plays the prefix `pops` (episodes cut anywhere), then the follow-up `fops` (a reset first); a
     newly built object plays the follow-up alone under the same tapes.  The model runs the follow-up from the FRESH
     object's dump; its trace, the used object's and the fresh object's must all be equal."""
-    used = ExSession(d["which"], d["p"], d.get("order", 0))
+    session_of = session_of or (lambda dd: ExSession(dd["which"], dd["p"], dd.get("order", 0)))
+    used = session_of(d)
     pent = run_ops(used, d["pops"])
     uent = run_ops(used, d["fops"])
-    fresh = ExSession(d["which"], d["p"], d.get("order", 0))
+    fresh = session_of(d)
     fent = run_ops(fresh, d["fops"])
     fops = d["fops"][:len(uent)]
-    c = make_case(dict(d, ops=fops, stream="example-twin"), fresh, fops, uent)
+    c = (make or make_case)(dict(d, ops=fops, stream="example-twin"), fresh, fops, uent)
     c.desc = d
     same = fenc(uent) == fenc(fent)
     c.tags = [t for t in c.tags if not t.startswith("stream:")] + [
@@ -1013,9 +1070,16 @@ def gen_twin_cases(rng, count):
         made += 1
         yield twin_case({"layer": "example", "which": which, "p": p, "order": order, "pops": pops[:len(pent)],
                          "fops": fops[:len(fent)]})
+    yield from p_corridor.gen_twin_cases(rng, max(10, count // 4))
+    yield from p_multigrid.gen_twin_cases(rng, max(8, count // 8))
+    yield from p_reach.gen_twin_cases(rng, max(10, count // 4))
 
 
 def twin_interpret(reply, case):
+    if case.desc.get("which") == "corridor":
+        return p_corridor.twin_interpret(reply, case)
+    if case.desc.get("which") == "multigrid":
+        return p_multigrid.twin_interpret(reply, case)
     d = dict(case.desc)
     d["ops"] = d["fops"]
     inner = core.Case(d, case.line, case.impl, tags=case.tags)
@@ -1027,6 +1091,12 @@ def twin_interpret(reply, case):
 
 
 def twin_shrink_candidates(d):
+    if d.get("which") == "corridor":
+        yield from p_corridor.twin_shrink_candidates(d)
+        return
+    if d.get("which") == "multigrid":
+        yield from p_multigrid.twin_shrink_candidates(d)
+        return
     for k in range(len(d["pops"]) - 1, 0, -1):
         yield dict(d, pops=d["pops"][:k] + d["pops"][k + 1:])
     for k in range(len(d["fops"]) - 1, 0, -1):
@@ -1049,10 +1119,13 @@ RULE = (" Stream `example-modelled`: real TeamBattleSim / PredatorPreyResourcesS
         "in its declared space, getters change nothing, rewards read-and-reset, a step with in-space actions does "
         "not raise). In-domain since the repairs c4ff362 / afc90bd / c275832 / fce2c1d: agents that strike two or "
         "three agents at once, killed entities without a reward entry, MultiMazeNavigationSim's ledger, callers that "
-        "overwrite the returned observations in place (15% of the cases).")
+        "overwrite the returned observations in place (15% of the cases)." + p_corridor.RULE + p_multigrid.RULE + p_reach.RULE)
 ASSUMPTIONS = [
     "example-modelled: rewards are compared in units of 1/100 (the real float x is read as round(100 x), which must be "
     "within 1e-6; floating-point rounding of the reward sums is not modelled)",
     "example-modelled: a call that raised ends the history; what it left of the object is neither dumped nor judged",
-    "example-modelled: ReachTheTargetSim is not modelled (hand-written done components; it deactivates agents by hand)",
+    "example-modelled: ReachTheTargetSim is modelled (Model/Reach.lean); proved: WInvWeak of every reachable world, "
+    "observations in the declared space; `stepMustNotRaise => step returns` is proved for steps that start in a WInv "
+    "world and judged at run time otherwise; its two KeyError branches for in-space actions (findings R1, R2) were "
+    "repaired in the repo and the model follows; pacman.py, comms_blocking.py and multi_agent_sim.py are not modelled",
 ]
